@@ -174,3 +174,18 @@ def check(run):
     run.ob("R15.4", "Writer<std::string>::rotate_output:close-then-open", seq == ["close", "open"], ro, ro["line"],
            "the old file is completed (close+rename) before the new .part file is opened")
     run.floor("R15.4", 5, "rotate chain")
+
+    # ---------------- R15.5 "complete" includes the compressor's tail: close() of the compressing writers drains the stream
+    # until its end code before the inner writer closes and renames (obligations of C14, same code, same reason)
+    from . import C14
+    before = len(run.obs)
+    floors_before = dict(run.floors)
+    C14.check(run)
+    kept = []
+    for o in run.obs[before:]:
+        if o.rule == "R14.2" and o.key.endswith("::close:drain-until-stream-end"):
+            o.rule = "R15.5"
+            kept.append(o)
+    run.obs = run.obs[:before] + kept
+    run.floors = floors_before
+    run.floor("R15.5", 2, "compressing writers")
